@@ -66,6 +66,7 @@ def make_world(scn, start=START):
     from mc.worlds.kit import Ctx
     from demeter.squeeth.helper import get_price_from_data
 
+    osqth_heavy = scn.endswith("|osqth-heavy-lp")
     no_osqth = scn.endswith("|no-osqth")  # the wallet has never held oSQTH (no entry at all): the first mint creates the entry
     spec = scenarios()[scn.split("|")[0]]
     eth_bars, kind, mark_mult, bar_minutes = spec[:4]
@@ -98,6 +99,10 @@ def make_world(scn, start=START):
         udata, sdata = um0.data, sm0.data
         prices = prices.resample(f"{bar_minutes}min").first()
     ranges = {"in": (sq.TICK0 - 1200, sq.TICK0 + 1200), "lo": (sq.TICK0 - 6000, sq.TICK0 - 3000), "hi": (sq.TICK0 + 3000, sq.TICK0 + 6000)}
+    if osqth_heavy:
+        # the pool tick sits just below the range's upper end: the position holds mostly token1 = oSQTH, so a vault collateralised by it can hold more oSQTH than
+        # it owes and still fall below 1.5x when the ETH part of its collateral loses weight against the index
+        ranges["in"] = (sq.TICK0 - 2400, sq.TICK0 + 60)
     if bar_minutes > 1:
         start = min(start, 3)
 
@@ -437,6 +442,8 @@ class Oracle:
                 S = S - burn
                 C = C + p["w_lp"] - bounty
                 part.count("lp_redeemed")
+                if p["o_lp"] > p["S"]:
+                    part.count("lp_redeemed_with_more_osqth_than_owed")
                 if S == 0 or C * 2 >= S * idx * 3:
                     if S > 0 and abs(C * 2 - S * idx * 3) <= MARGIN * S * idx * 3:
                         part.count("bars_on_the_frontier_not_judged")
@@ -499,7 +506,7 @@ def main(run: Run):
     depth = run.pick(3, 4)
     max_dev = run.pick(2, 3)
     scns = list(scenarios()) if run.thorough else ["flat", "step+30%", "step+150%", "ne-step+30%", "mark-x2.5", "premium1.5-mark-x0.8", "5min-ramp+3%", "premium1.5-ramp+4%"]
-    scns = scns + ["flat|no-osqth"]
+    scns = scns + ["flat|no-osqth", "step+30%|osqth-heavy-lp", "step+150%|osqth-heavy-lp"]
     jobs = []
     skipped, accepted_roots = [], set()
     for scn in scns:
@@ -513,6 +520,8 @@ def main(run: Run):
                     continue  # no oSQTH to put into a pool position
                 if root == ("squni.add[in,tiny]",) and scn not in ("flat", "ne-step+30%"):
                     continue  # the small-vault corner is explored in two scenarios
+                if scn.endswith("|osqth-heavy-lp") and not (len(root) == 2 and root[1].endswith(",lp]")):
+                    continue  # this variant is about vaults that hold the position
                 ctx, outs = kit.replay_history(world.build, alphabet(world), root)
                 if not all(o.ok for o in outs):
                     skipped.append((scn, start, root))  # e.g. an LP-only vault opened when the position is worth less than the 0.5 ETH minimum
